@@ -1794,7 +1794,7 @@ func runC05(ctx *Ctx) *Result {
 	rng := NewRng(ctx.Seed)
 	variants := 1
 	if ctx.Tier == "thorough" {
-		variants = 4
+		variants = 12
 	}
 	for v := 0; v < variants; v++ {
 		for _, name := range c05Scenarios {
